@@ -142,7 +142,7 @@ func isOpaqueType(t types.Type) (string, bool) {
 		"encoding/xml.Name", "github.com/bwesterb/go-exptable.Table",
 		"crypto/ecdsa.PublicKey", "crypto/ecdsa.PrivateKey", "os.File",
 		"github.com/sirupsen/logrus.Logger", "github.com/go-errors/errors.Error",
-		"math/rand.Rand", "crypto/sha256.digest", "sync/atomic.Uint64":
+		"math/rand.Rand", "crypto/sha256.digest":
 		return full, true
 	}
 	return "", false
